@@ -80,7 +80,7 @@ fn gen_type(r: &mut Xo, fam: u64) -> DistType {
         4 => DistType::Binomial {
             // the last values of each list lie beyond today's validation bounds: they are sampled only
             // if validation admits them, so a relaxed bound is probed where it now lies
-            trials: *r.pick(&[0, 1, 2, 9, 10, 11, 20, 1000, 1_000_000, 999_999_999, 1_000_000_000, 1_000_000_001, (1 << 31) - 1, 1 << 31, 1 << 40, u64::MAX]),
+            trials: *r.pick(&[0, 1, 2, 9, 10, 11, 20, 1000, 1_000_000, 999_999_999, 1_000_000_000, 1_000_000_001, (1 << 31) - 1, 1 << 31, 1 << 32, (1 << 32) + 1, (1 << 32) + 1000, 1 << 40, 1 << 63, 0xFFFF_FFFF_0000_0000, u64::MAX]),
             probability: *r.pick(&[
                 0.0,
                 1.0e-9,
